@@ -32,6 +32,36 @@ def event_aggregate_for(fn, site):
     return l, None
 
 
+SEQ_PRIMS = r'hash::map::HashMap::<K, V, S, A>::get$|ContinuityStore::load_next_seq_for$'
+
+
+def seq_source_call_ok(P, fn, src, guard, depth=0):
+    """the seq comes from the guarded map / the recovery loader — directly, or through a
+    workspace helper that is handed the guarded map (argument derived from the guard) and whose
+    own return value comes from those same primitives."""
+    callee = src[1]
+    if re.search(SEQ_PRIMS, callee):
+        return True
+    helper = P.fns.get(callee)
+    if helper is None or depth > 2 or not callee.startswith(STORE):
+        return False
+    site = next((s for s in fn.sites() if s.bb == src[2] and s.callee == callee), None)
+    if site is None or not any(derives_from_local(fn, a, guard) for a in site.args if op_place(a)):
+        return False
+    # the helper's return value: every Ok(..) / direct return derives from the primitives
+    rets = [st['rv']['a'][0] for (bi, si, st) in helper.aggregates(r'^core::result::Result$', 'Ok') if st['d']['l'] == 0]
+    if not rets:
+        rets = [{'c': {'l': 0}}]
+    for r in rets:
+        hs = sources(helper, r)
+        hc = [x for x in hs if x[0] == 'call']
+        if not hc or [x for x in hs if x[0] not in ('call',)]:
+            return False
+        if not all(re.search(SEQ_PRIMS, x[1]) for x in hc):
+            return False
+    return True
+
+
 def ok_edge_of_try(fn, site):
     """(switch_block, ok_target) of the `?` applied to the result of `site` (possibly
     through map_err)."""
@@ -87,7 +117,7 @@ def run(ctx):
         g = held[0]
         src = sources(fn, seq_op)
         calls = {x[1] for x in src if x[0] == 'call'}
-        oksrc = bool(calls) and all(re.search(r'hash::map::HashMap::<K, V, S, A>::get$|ContinuityStore::load_next_seq_for$', c) for c in calls) \
+        oksrc = bool(calls) and all(seq_source_call_ok(P, fn, x, g) for x in src if x[0] == 'call') \
             and not [x for x in src if x[0] not in ('call',)]
         ctx.ob('C01.1', fn, 'seq-source', oksrc,
                'Event.seq derives from %s' % sorted(x[1].rsplit('::', 2)[-2] + '::' + x[1].rsplit('::', 1)[-1] if x[0] == 'call' else str(x[:2]) for x in src), line=s.line)
@@ -98,6 +128,7 @@ def run(ctx):
         edge = ok_edge_of_try(fn, s)
         adv = []
         pre = []
+        # a private helper that receives the guarded map may do the recovery insert itself
         for i in inserts:
             vsrc = sources(fn, i.args[2])
             is_plus1 = any(x[0] == 'bin' and x[1].startswith('Add') for x in vsrc)
